@@ -28,6 +28,15 @@ CLAIMS = {
              "ordering facts on every path between object-store calls - exactly the crash/fault points tests cannot enumerate.",
         technique="MIR dominance over awaited Result edges in pre-lowering coroutine bodies, path search for buffer restore, who-may-use field scan",
         ref="DESIGN.md §3 C12"),
+    "C08": dict(
+        text="Decides structural clauses of C08: R08.1 every store to LamportClock.time has a monotone form (time+c, max(time,x)+c) "
+             "and no node-clock field is overwritten wholesale; R08.2 stamps copied from a clock follow a ticking call, LwwRegister "
+             "stamps are clock.tick(); R08.3 every insert of an externally produced value into ShardReplicaState.replicated_keys is "
+             "dominated by LamportClock::update(clock, &value.timestamp) (covers remote deltas and the recovery arm); R08.4 recovery "
+             "is wired (checkpoint then deltas, before accept); R08.5 every remote delta reaches the clock-advancing ingest on all "
+             "paths. These are who-may-write and must-pass-through facts over all paths incl. the never-tested recovery arm.",
+        technique="who-may-write field scan over all MIR bodies, store-shape classification, dominance / must-pass-through, value provenance",
+        ref="DESIGN.md §3 C08"),
 }
 
 PENDING_REASON = "check not built yet (build in progress; DESIGN.md §3 lists the planned structural clauses)"
